@@ -257,6 +257,86 @@ def gen_damage_programs(r, n, big=0.02):
     return progs
 
 
+EXTRACT_BY_KEY = ["copy", "copy_unchecked", "hard_link", "hard_link_unchecked", "reflink", "reflink_unchecked"]
+EXTRACT_BY_HASH = ["copy_hash", "copy_hash_unchecked", "hard_link_hash", "hard_link_hash_unchecked", "reflink_hash"]
+
+
+def gen_extraction_programs(r, n):
+    """C18 / C03 / C15 / C01: sequences of extractions that REUSE destinations (the same path twice, a
+    path that already is a hard link of the content, a longer old file), name destinations whose parent
+    directory does not exist, and run after the content was removed by address.  Pristine content only,
+    so the model takes part."""
+    progs = []
+    for i in range(n):
+        algo = r.pick(L.ALGOS)
+        d = G.data(r, r.pick([0, 1, 40, 3000])) + b"E"
+        d2 = G.data(r, r.pick([5, 9000])) + b"other"
+        k, k2 = b"ex%d" % i, b"ey%d" % i
+        ops = [w_oneshot(r.pick("sa"), algo, k, d), w_oneshot(r.pick("sa"), algo, k2, d2)]
+        st = sri_tok(algo, d)
+        dests = ["out/x", "out/y", "out/nodir/sub/z"]
+        if r.chance(0.4):
+            ops.append(f"put out/y {hx(r.randbytes(r.pick([3, 200, 20000])) + b'OLD')}")
+        steps = []
+        gone = False
+        for j in range(r.randrange(3, 8)):
+            if not gone and j >= 2 and r.chance(0.15):
+                ops.append(f"remove_hash {r.pick('sa')} c0 {st}"); gone = True
+                continue
+            by_hash = r.chance(0.4)
+            name = r.pick(EXTRACT_BY_HASH if by_hash else EXTRACT_BY_KEY)
+            fl = "s" if name in SYNC_ONLY else r.pick("sa")
+            dest = r.pick(dests if r.chance(0.85) else ["out/x"])
+            ops.append(f"{name} {fl} c0 {st if by_hash else hx(k)} {dest}")
+            ei = len(ops) - 1
+            ops.append(f"cat {dest}")
+            steps.append((ei, name, dest, gone))
+        ops.append(f"read s c0 {hx(k)}"); rd = len(ops) - 1
+        ops.append(f"read a c0 {hx(k2)}")
+        ops.append("dump c0/content-v2")
+        ops.append("dump out")
+        progs.append(Program(f"extract{i}", ops, tags={"data": d, "data2": d2, "steps": steps, "gone": gone, "read": rd,
+                                                       "variety": ("extract", tuple(sorted({s_[1] for s_ in steps}))[:3], gone)}))
+    return progs
+
+
+def mon_extraction(rr):
+    out = []
+    t = rr.prog.tags
+    d = t["data"]
+    n = len(rr.impl)
+    for ei, name, dest, gone in t["steps"]:
+        if ei + 1 >= n:
+            break
+        res = toks(rr.impl[ei]); cat = toks(rr.impl[ei + 1])
+        sig = {"op": name, "api": rr.prog.ops[ei].split(" ")[1], "dest": dest.split("/")[1] if "/" in dest else dest}
+        if res[0] == "ok":
+            if gone:
+                out.append(Failure("extracted_missing_content", ei, f"{name} -> ok although the content was removed by address", sig=sig))
+            elif dest.startswith("out/nodir"):
+                out.append(Failure("created_missing_parents", ei, f"{name} to a destination whose parent directory does not exist -> ok", sig=sig))
+            elif cat[0] != "ok" or unhx(cat[1]) != d:
+                got = "missing" if cat[0] != "ok" else f"{len(unhx(cat[1]))} bytes"
+                out.append(Failure("wrong_bytes", ei + 1, f"{name} answered ok but the destination holds {got}, not the {len(d)} stored bytes", sig=sig))
+            if name.startswith("copy") and len(res) > 1 and res[1].isdigit() and int(res[1]) != len(d) and not gone:
+                out.append(Failure("wrong_count", ei, f"{name} returned {res[1]} for {len(d)} bytes", sig=sig))
+    # nothing appeared next to the destinations (no directories created for a destination that could not be written)
+    files, links, dirs = parse_dump(rr.impl[-1]) if n == len(rr.prog.ops) else ({}, {}, set())
+    stray = [x for x in list(dirs) + list(files) if x.startswith("out/nodir")]
+    if stray:
+        out.append(Failure("created_missing_parents", n - 1, f"an extraction created {sorted(stray)[:3]} outside the cache", sig={"op": "dump"}))
+    # the entry itself is intact (extractions never harm the cache)
+    if n == len(rr.prog.ops) and not t["gone"]:
+        rd = toks(rr.impl[t["read"]])
+        if rd[0] != "ok" or unhx(rd[1]) != d:
+            out.append(Failure("extraction_damaged_entry", t["read"], f"after the extractions the entry reads {' '.join(rd[:2])[:40]}", sig={"op": "read"}))
+    if n == len(rr.prog.ops):
+        r2 = toks(rr.impl[t["read"] + 1])
+        if r2[0] != "ok" or unhx(r2[1]) != t["data2"]:
+            out.append(Failure("extraction_damaged_entry", t["read"] + 1, "another entry no longer reads its value", sig={"op": "read"}))
+    return out
+
+
 def mon_checked_retrieval(rr):
     """C01: every ok from a checked retrieval carries exactly the stored bytes (judged by hashlib)."""
     out = []
